@@ -55,7 +55,16 @@ def tau_spec(S1, S2, i, j, lim, M):
 
 
 def coincident(S1, S2, i, j, lim, M):
-    return cmp('<', rabs(arith('-', S1[i], S2[j])), tau_spec(S1, S2, i, j, lim, M))
+    from ..sym import MEMO
+    key = None
+    if isinstance(i, int) and isinstance(j, int):
+        key = ('coinc', id(S1), id(S2), i, j, lim.get_id() if is_z3(lim) else lim, M.get_id() if is_z3(M) else M)
+        if key in MEMO:
+            return MEMO[key][0]
+    r = cmp('<', rabs(arith('-', S1[i], S2[j])), tau_spec(S1, S2, i, j, lim, M))
+    if key is not None:
+        MEMO[key] = (r, S1, S2, lim, M)          # operands kept alive so that id() keys stay unique
+    return r
 
 
 def trains_setup(st, mode, size, values, names, nonempty=False):
